@@ -58,7 +58,8 @@ def with_layers(*layers):
 
 reg("C05", "exploration",
     "cases = valid entry lists: every list of <=2 entries (quick; <=3 thorough, quick strides the 3-entry lists) over the "
-    "boundary value sets in coverage.small_list_value_sets (distinct by enumeration), plus seeded random lists up to 10^4 "
+    "boundary value sets in coverage.small_list_value_sets (distinct by enumeration), lists whose entry COUNT sits on varint-width / "
+    "power-of-two boundaries (127...131 073), plus seeded random lists up to 10^4 "
     "(quick) / 10^5 (thorough) entries (distinct by fingerprint of the entry list + codec; non-trivial = >=2 entries); each "
     "case runs encode-vs-spec, decode(own), decode(independent encoder) and, for a subset, the async twins",
     require={"any": {"encode_matches_spec": 1000, "foreign_decode_ok": 1000, "async_twins": 50}},
@@ -75,7 +76,8 @@ reg("C07", "exploration",
 
 reg("C09", "exploration",
     "cases = 127-byte headers: decode->encode sweep over stored coordinate values (stride 37 quick, every one of the 2^32 "
-    "values thorough; six slots per header; distinct by enumeration), random/boundary integer+enum fields with short-read, "
+    "values thorough; six slots per header; distinct by enumeration), random/boundary integer+enum fields incl. structured specials "
+    "(center / bounds / counters / zooms 'not set' = all zero, or equal to each other) with short-read, "
     "async and consumed-bytes clauses, sampled f64 degrees incl. half-step ties (nearest-multiple clause), and the rejection "
     "classes (each magic byte, every version != 3, every unknown enum code, every truncation 0..126)",
     require={"any": {"stored_values_swept": 100000000, "degree_headers": 10000, "rejections_ok": 1000, "detail_checks": 1000}},
@@ -94,7 +96,8 @@ def c08_phases(tier):
 
 reg("C08", "exploration",
     "cases = byte strings fed to Header/Directory/PMTiles readers (sync+async), then lookups, partial opens, read_directories and "
-    "a re-write on whatever opened: (a) crafted corpus, >=1 archive per hazard class x 4 codecs; (b) every prefix and every "
+    "a re-write on whatever opened: (a) crafted corpus, >=1 archive per hazard class x 4 codecs (incl. cycle-free chains of 3...90 000 "
+    "DISTINCT nested directories, i.e. below and above any stack limit yet inside the visit budget); (b) every prefix and every "
     "single-byte boundary substitution {00,01,7f,80,ff,+1,-1} of small valid archives (exhaustive); (c) structure-aware "
     "mutations of valid archives in all codecs (header fields / raw varint columns / counts -> boundary values, pointer "
     "retargeting incl. cycles, stream corruption, wrong codec, stale headers, truncation), splices and bursts. Distinct by "
@@ -110,7 +113,10 @@ reg("C08", "exploration",
 
 reg("C15", "fault_enumeration",
     "cases = (scenario, k): scenarios = {PMTiles to_writer/from_reader/get_tile_by_id, util read_directories/write_directories, "
-    "Directory to_writer/from_reader, Header to_writer/from_reader} x {small, leaf-spilling} x 4 codecs x {sync, async}; for each the "
+    "Directory to_writer/from_reader, Header to_writer/from_reader} x {small, leaf-spilling} x 4 codecs x {sync, async}, plus lookup "
+    "SEQUENCES that continue after a failure (same id retried, run-length neighbour, deduplicated twin, absent id: every call that "
+    "reports success must return the tile's bytes) and the archive writers behind std / futures BufWriter (a failure reaches the "
+    "library only at a flush or seek, possibly its last operation; the stream is handed back unflushed); for each the "
     "fault-free run defines N stream operations and the run in which operation k and all later ones fail is executed for every "
     "k < N (stride reported per scenario when N exceeds the tier's limit). Distinct by enumeration of (scenario,k); every case "
     "injects a fault, so all are non-trivial. Oracle: no panic, and Ok => stream image / returned value equals the fault-free one.",
@@ -142,7 +148,11 @@ reg("C01", "exploration",
     "layouts {dense, zoom block, runs with gaps, sparse over the whole valid domain incl. 0 and the largest id, zoom-block edges, "
     "high-entropy}, contents 1 B-100 KiB with exact and near duplicates, random JSON-object metadata (unicode, escapes, i64/u64, "
     "17-digit floats, depth 60), all 6 tile types x 5 tile compressions x 4 internal compressions, zoom bytes 0-255, coordinates "
-    "incl. bounds, exact multiples and half-step ties; written by the sync (4/5) or async (1/5) writer and opened with from_bytes. "
+    "incl. bounds, exact multiples and half-step ties; further classes: equal-length content pools on dense id blocks (runs, "
+    "back-references, offsets exact multiples of the length apart), 65 535-131 073 tiles alternating between 2-3 short contents (more "
+    "than 2^16 entries in ONE compressed root), large contents that differ from another one only in a middle / first / last byte; "
+    "every third archive is built through detours (junk replaced later, identical bytes re-added while unique and while shared, extra "
+    "ids added and removed); written by the sync (4/5) or async (1/5) writer and opened with from_bytes. "
     "Distinct by fingerprint of the logical archive; non-trivial = >=2 tiles and (duplicates or non-empty metadata). Oracle: the "
     "generator's own map + settings; every added tile fetched, ~100 absent ids probed per archive.",
     require={"any": {"round_trips_equal": 300, "archives_with_leaf_directories": 8, "coordinate_lookups_equal": 1000,
@@ -227,7 +237,8 @@ reg("C03", "exploration",
     "framing variants (gzip header fields, zstd checksum/content size, brotli windows); every archive is first accepted by the "
     "reference validator (else inconclusive); plus the repository's three upstream fixtures. Entry points rotate from_bytes / "
     "from_reader / from_async_reader; util::read_directories on every archive; Directory::find_entry_for_tile_id on every "
-    "directory of every 4th archive. Distinct by fingerprint of the archive bytes; non-trivial = >= 2 entries.",
+    "directory of every 4th archive (probes at run starts/ends +-1, gaps, leaf-pointer ids and ids k*2^32+d past an entry start); "
+    "a quarter of the archives store identical bytes at several offsets (valid, not deduplicated). Distinct by fingerprint of the archive bytes; non-trivial = >= 2 entries.",
     require={"any": {"archives_equal": 1000, "entry_maps_equal": 1000, "fixtures_equal": 3, "find_entry_probes": 2000,
                      "depth.3": 50, "depth.2": 50, "layouts_with_permuted_sections": 100, "layouts_with_gaps": 100,
                      "layouts_with_empty_metadata": 50, "offset_style.2": 100}})
@@ -249,8 +260,10 @@ reg("C04", "exploration",
 
 reg("C10", "exploration",
     "cases = (logical archive with a duplication pattern, build history): patterns {random, dense block with runs A A B B A, "
-    "alternating A B A B, duplicates across zooms with gaps, one content over a long dense block crossing a zoom boundary, near "
-    "duplicates sharing length/prefix}; histories {all in memory, half / save+reopen / half (duplicates between reader-backed and "
+    "alternating A B A B, duplicates across zooms with gaps, one content over a long dense block crossing a zoom boundary, one-content "
+    "runs of 255...131 073 ids (integer-width boundaries of the run length), near duplicates sharing length/prefix}; plus archives "
+    "from the independent writer that are valid but NOT deduplicated (identical bytes at several offsets), opened, optionally "
+    "extended in memory, and re-written; histories {all in memory, half / save+reopen / half (duplicates between reader-backed and "
     "in-memory tiles), save+reopen then re-add identical bytes, detours through junk that is replaced/removed}; sync and async "
     "stores; 4 codecs. Distinct by fingerprint of (archive, history); non-trivial = the archive has duplicate contents. Oracle: "
     "written file parsed by the reference reader (data length = sum of distinct contents, identical content <=> identical offset, "
@@ -265,7 +278,8 @@ reg("C06", "exploration",
     "cases = (valid tile-entry list, codec, initial leaf size, sync/async) through util::write_directories(_async) on a recording "
     "stream started at position 0/127/1000: lists size-steered so that the None encoding has exactly 16256/16257/16258/16300/16383/"
     "16384/16385 bytes, codec lists bracketed around the first spilling prefix (+-2 entries), and random lists of 0..10^4 (quick) / "
-    "10^5 (thorough) entries; initial leaf sizes {default,1,2,7,33,4096,10^6}. Distinct by fingerprint of (list, codec, leaf size); "
+    "10^5 (thorough) entries, and very regular lists of 16 257...200 000 entries that compress to a few hundred bytes (must NOT spill "
+    "under a codec); initial leaf sizes {default,1,2,7,33,4096,10^6}. Distinct by fingerprint of (list, codec, leaf size); "
     "non-trivial = >= 2 entries. Oracle: root = stream[start, position) <= 16257 bytes and decodes (exact consumption) as one "
     "directory; spill => only pointers, each [offset,offset+length) decodes as exactly one leaf whose first id is the pointer's id, "
     "concatenated leaves = input; no spill => root = input and = single-directory encoding; spill <=> single-directory encoding > 16257.",
@@ -287,8 +301,8 @@ reg("C19", "exploration",
     "up to 2000 entries) x 4 codecs x serialiser/parser x sync/async; add_tile(id, []) on an existing and an absent id after every "
     "operation of random edit histories (incl. save+reopen) with full before/after comparison (lookups, listing, count, store report, "
     "bytes of a later save vs an untouched twin); every non-object JSON kind as metadata x 4 codecs x sync/async open (archives from "
-    "the independent writer); Unknown internal compression on write (empty / non-empty, sync/async), on open, and at directory "
-    "level. Each clause has a positive control. Distinct by fingerprint; all non-trivial.",
+    "the independent writer); Unknown internal compression on write (empty / non-empty, sync/async), on open (patched foreign "
+    "archives, and a header-only archive whose sections are all empty), and at directory level (also zero-length input). Each clause has a positive control. Distinct by fingerprint; all non-trivial.",
     require={"any": {"serialiser_rejections": 1000, "parser_rejections": 1000, "parser_rejections_async": 1000, "empty_adds_refused": 1000,
                      "saves_equal_to_untouched_twin": 50, "non_object_metadata_refused": 200, "non_object_metadata_refused_async": 200,
                      "unknown_compression_refused_on_write": 16, "unknown_compression_refused_on_open": 32}})
@@ -308,12 +322,14 @@ reg("C12", "exploration",
     "cases = valid inputs of C01/C03/C05/C06/C09: logical archives (written by both writers; all four writer x reader combinations "
     "compared, None outputs byte-compared, async output judged by the independent reader), foreign and library-written archives "
     "(sync vs async full and range-filtered opens incl. every tile's bytes; read_directories twins), entry lists x 4 codecs "
-    "(Directory twins both ways; write_directories twins resolved through the reference decoder) and headers. Async code is driven "
+    "(Directory twins both ways; write_directories twins resolved through the reference decoder, incl. lists size-steered to "
+    "16255...16259 / 16384 bytes where both twins must take the same spill decision) and headers. Async code is driven "
     "by block_on over plain cursors and over the instrumented stream with short transfers and random Pending. Distinct by "
     "fingerprint of the input; non-trivial = >= 2 tiles/entries. Oracle: the synchronous twin.",
     require={"any": {"writer_reader_combinations_equal": 200, "none_outputs_byte_identical": 50, "async_outputs_validated": 200,
                      "full_opens_equal": 300, "partial_opens_equal": 300, "entry_maps_equal": 300, "directories_equal": 200,
-                     "write_directories_equal": 50, "headers_equal": 1000, "boundary_twins_equal": 6}})
+                     "write_directories_equal": 50, "headers_equal": 1000, "boundary_twins_equal": 6}},
+    phases=with_layers("asan"))
 
 reg("C13", "exploration",
     "cases = (input, schedule): EVERY composition of n bytes (n <= 16 quick / 22 thorough, 2^(n-1) schedules each) for None-encoded "
@@ -326,7 +342,8 @@ reg("C13", "exploration",
     require={"any": {"compositions_executed": 30000, "dir_reads_equal": 30000, "dir_writes_equal": 30000, "codec_directory_schedules": 1000,
                      "header_schedules_equal": 900, "archive_reads_equal": 100, "archive_reads_equal_async": 100,
                      "archive_writes_equal": 100, "archive_writes_equal_async": 100, "archives_with_leaves": 4,
-                     "pending_patterns_equal": 4096, "short_transfers": 100000, "pending_answers": 10000}})
+                     "pending_patterns_equal": 4096, "short_transfers": 100000, "pending_answers": 10000}},
+    phases=with_layers("asan"))
 
 
 def c14_python(cfg, tier, seed, work, agg):
@@ -366,7 +383,7 @@ def c14_phases(tier):
 
 reg("C14", "exploration",
     "cases = (byte string, codec, mode): payloads {empty, 1 byte, runs, text, incompressible, tiny, sizes around 4 KiB/32 KiB/64 KiB/"
-    "128 KiB boundaries, multi-megabyte repetitive and random} x {none, gzip, brotli, zstd} x {one-shot compress_all/decompress_all; "
+    "128 KiB boundaries, multi-megabyte repetitive and random, 4 MiB+1 / 8 MiB / 9 MiB+17 (16 MiB+3 thorough)} x {none, gzip, brotli, zstd} x {one-shot compress_all/decompress_all; "
     "streams from the upstream encoders with foreign parameters/framing fed to decompress_all; streaming through compress/decompress "
     "(compress_async/decompress_async) with caller chunk schedules {1,2,3,7,64,4096,65536, random} over underlying streams that "
     "fragment and answer Pending}; every composition of the write chunks for |x| <= 12; 'unknown' on all eight entry points. "
@@ -411,9 +428,10 @@ def c16_phases(tier):
 
 
 reg("C16", "exploration",
-    "cases = logical archives (C01 classes, 4 codecs) each built along 9 histories reaching the same logical state: insertion order "
+    "cases = logical archives (C01 classes, 4 codecs) each built along 12 histories reaching the same logical state: insertion order "
     "sorted / reversed / shuffled (+ metadata assembled in another key order), detours (junk replaced later, extra ids added then "
-    "removed, duplicate adds), save+reopen midway with a sync or async reopen (tiles partly reader-backed), by the sync and the async "
+    "removed, duplicate adds), save+reopen midway with a sync or async reopen (tiles partly reader-backed), a saved superset that is "
+    "reopened and shrunk by removals only (nothing in memory at save time) or by a range-filtered open, by the sync and the async "
     "writer; all outputs of one writer kind must be byte-identical (and sync == async where no codec is involved); the first three "
     "outputs are reopened and re-written (rewrite idempotence, covers stored coordinates); plus a cross-process phase in which 6 "
     "separate OS processes (different hash-map seeds) serialise the same archives and the driver compares fingerprints. Distinct by "
